@@ -416,6 +416,73 @@ func (e *detExec) Do(line string) string {
 		e.compare("c15-stale-after-edit:", sprintf("%s after renaming / renumbering %d nodes and the messages, buses, signals, enums, values, builders: edited network vs the equal network loaded from its save", ctx, len(nodes)), ref2, detExport(loaded2), seen)
 	}()
 
+	// 6. the sorts of the exports lean on unique keys (node ids and names per bus): an edit that
+	//    a bus REFUSES must leave every key where it was.  A node on several buses is given the id
+	//    (then the name) of a node it shares one of them with; after the refusal no bus of the node
+	//    may accept a newcomer with the node's id / name — where one does, two entries tie in a
+	//    sort and the repeated exports of the (now unchanged) model are compared
+	func() {
+		defer func() {
+			if p := recover(); p != nil {
+				e.add("c15-unique-key-lost:panic", sprintf("%s: %v", ctx, p))
+			}
+		}()
+		probes := 0
+		for _, a := range g.nodes {
+			var buses []*acmelib.Bus
+			for _, ni := range a.Interfaces() {
+				if b := ni.ParentBus(); b != nil {
+					buses = append(buses, b)
+				}
+			}
+			if len(buses) < 2 {
+				continue
+			}
+			oldID, oldName := a.ID(), a.Name()
+			for _, bus := range buses {
+				for _, oi := range bus.NodeInterfaces() {
+					o := oi.Node()
+					if o == a {
+						continue
+					}
+					idRefused := a.UpdateID(o.ID()) != nil
+					nameRefused := a.UpdateName(o.Name()) != nil
+					if !idRefused {
+						_ = a.UpdateID(oldID)
+					}
+					if !nameRefused {
+						_ = a.UpdateName(oldName)
+					}
+					for _, b2 := range buses {
+						probes++
+						var lost []string
+						if idRefused {
+							pn := acmelib.NewNode(sprintf("zz_probe_%d", probes), oldID, 1)
+							if b2.AddNodeInterface(pn.Interfaces()[0]) == nil {
+								lost = append(lost, sprintf("id %d", oldID))
+							}
+						}
+						if nameRefused {
+							pn := acmelib.NewNode(oldName, acmelib.NodeID(3000+probes), 1)
+							if b2.AddNodeInterface(pn.Interfaces()[0]) == nil {
+								lost = append(lost, sprintf("name %q", oldName))
+							}
+						}
+						if len(lost) > 0 {
+							e.add("c15-unique-key-lost", sprintf("%s: node %q: an UpdateID / UpdateName refused by bus %q left %v free on bus %q: a second node took it", ctx, oldName, bus.Name(), lost, b2.Name()))
+							ref3 := detExport(g.net)
+							for i := 1; i < 12; i++ {
+								e.compare("c15-nondeterministic:", sprintf("%s with two nodes sharing %v, run %d vs run 0", ctx, lost, i), ref3, detExport(g.net), seen)
+							}
+							return
+						}
+					}
+					break
+				}
+			}
+		}
+	}()
+
 	if len(seen) > 0 || ref.err != "" {
 		keys := make([]string, 0, len(seen))
 		for k := range seen {
